@@ -281,6 +281,10 @@ def race_result(prop, test, outp, rc, txt, res, nruns):
     if res:
         for s in res.get("scenarios") or []:
             s["name"] = "free-race/" + s["name"]
+            for k in (s.get("outcomes") or {}):
+                if "abandoned" in k:
+                    notes.append("%s: %s" % (s["name"], k))
+                    log("NOTE: race pass %s: %s" % (s["name"], k))
             s["outcomes"] = {"free-running (-race), verdicts not evaluated": s.get("execs", 1)}
             s["execs"] = s.get("steps", nruns) // max(1, s.get("execs", 1))  # one free run = one execution (steps are summed over repeated reads of the cached outcome)
             s["choice_nodes"] = 0
